@@ -274,12 +274,14 @@ impl Exp {
                     return Exp::Max(vec![]);
                 }
                 //if they are all numbers, return the max
-                let nums = exps
+                //(every operand is simplified exactly once: doing it twice per
+                //level made nested blocks exponential)
+                let simplified = exps.iter().map(|exp| exp.simplify()).collect::<Vec<_>>();
+                let nums = simplified
                     .iter()
                     .map(|exp| {
-                        let exp = exp.simplify();
                         if let Exp::Number(value) = exp {
-                            Some(value)
+                            Some(*value)
                         } else {
                             None
                         }
@@ -289,7 +291,7 @@ impl Exp {
                     Some(nums) => {
                         Exp::Number(nums.iter().cloned().fold(f64::NEG_INFINITY, f64::max))
                     }
-                    None => Exp::Max(exps.iter().map(|exp| exp.simplify()).collect::<Vec<_>>()),
+                    None => Exp::Max(simplified),
                 }
             }
             Exp::Min(exps) => {
@@ -297,12 +299,12 @@ impl Exp {
                     return Exp::Min(vec![]);
                 }
                 //if they are all numbers, return the min
-                let nums = exps
+                let simplified = exps.iter().map(|exp| exp.simplify()).collect::<Vec<_>>();
+                let nums = simplified
                     .iter()
                     .map(|exp| {
-                        let exp = exp.simplify();
                         if let Exp::Number(value) = exp {
-                            Some(value)
+                            Some(*value)
                         } else {
                             None
                         }
@@ -310,7 +312,7 @@ impl Exp {
                     .collect::<Option<Vec<f64>>>();
                 match nums {
                     Some(nums) => Exp::Number(nums.iter().cloned().fold(f64::INFINITY, f64::min)),
-                    None => Exp::Min(exps.iter().map(|exp| exp.simplify()).collect::<Vec<_>>()),
+                    None => Exp::Min(simplified),
                 }
             }
             exp => exp.clone(),
